@@ -45,30 +45,37 @@ def run_cfg(chk, facts, cfg):
         chk.notes.extend(m.problems)
         return
     from ..overrides import obligation as no_overrides
-    no_overrides(chk, PID, facts, sfx, [m.path], 'approx impls of Interval (the *_ne forms follow from the *_eq forms)', traits=('AbsDiffEq', 'RelativeEq', 'UlpsEq', 'Display', 'Debug'))
     has_approx = 'approx' in facts.meta['features']
     n = 0
-    for trait, meth, tols in APPROX:
-        f = facts.trait_method(trait, m.path, meth)
-        if not has_approx:
-            chk.ob('%s:%s:absent%s' % (PID, meth, sfx), 'cfg', '%s impl is compiled out without the approx feature' % meth, f is None,
-                   '' if f is None else 'impl present although the feature is off')
-            continue
-        if not chk.anchor('%s for Interval%s' % (trait, sfx), f):
-            continue
-        n += 1
+    def check_rel(f, meth, tols, label, negate=False):
+        """the impl `f`, as a boolean function of the element relations `meth` on corresponding bounds, is their
+        conjunction (false for different kinds); negate: an overridden *_ne form must be the negation of that"""
+        ne_name = meth.replace('_eq', '_ne')
         where = facts.loc(f['id'])
         names = ['A', 'B'] + tols
         try:
             sx, paths = summarize(facts, f, names)
         except Unsupported as e:
-            chk.ob('%s:%s:analysable%s' % (PID, meth, sfx), 'E5-bool', meth, None, str(e), where)
-            continue
+            chk.ob('%s:%s:analysable%s' % (PID, label, sfx), 'E5-bool', label, None, str(e), where)
+            return
         chk.saw(facts, f, paths=len(paths))
         tol_terms = tuple(T.sym(t) for t in tols)
+
+        def norm(atom, pol):
+            # an element-level *_ne is the negation of the element-level *_eq (approx's provided method)
+            if atom[0] == 'call' and atom[1] == ne_name:
+                return ('call', meth, atom[2]), not pol
+            return atom, pol
+
+        def norm_term(t):
+            if t[0] == 'call' and t[1] == ne_name:
+                return T.op('not', ('call', meth, t[2]))
+            if t[0] == 'op':
+                return ('op', t[1], tuple(norm_term(x) if isinstance(x, tuple) and x and isinstance(x[0], str) else x for x in t[2]))
+            return t
         for ka, kb in itertools.product(('two', 'upper', 'lower'), repeat=2):
-            key = '%s:%s:%s%s' % (PID, meth, kinds_str((ka, kb)), sfx)
-            desc = '%s on %s is the bound-wise element relation with the tolerances passed through (false for different kinds)' % (meth, kinds_str((ka, kb)))
+            key = '%s:%s:%s%s' % (PID, label, kinds_str((ka, kb)), sfx)
+            desc = '%s on %s is %sthe bound-wise element relation with the tolerances passed through (%s for different kinds)' % (label, kinds_str((ka, kb)), 'the negation of ' if negate else '', 'true' if negate else 'false')
             variants = {T.sym('A'): m.kinds[ka][0], T.sym('B'): m.kinds[kb][0]}
             cand = []
             for p in paths:
@@ -79,7 +86,7 @@ def run_cfg(chk, facts, cfg):
                         if (variants.get(atom[1]) == atom[2]) != pol:
                             okp = False
                     else:
-                        rest.append((atom, pol))
+                        rest.append(norm(atom, pol))
                 if okp:
                     cand.append((p, rest))
             if ka == kb:
@@ -89,35 +96,53 @@ def run_cfg(chk, facts, cfg):
             else:
                 want_atoms = []
             atoms = set(want_atoms)
+            rets = {}
             for p, rest in cand:
                 for atom, pol in rest:
                     atoms.add(atom)
                 if p.ret is not None:
-                    T.walk(p.ret, lambda t: atoms.add(t) if t[0] == 'call' else None)
+                    rets[id(p)] = norm_term(p.ret)
+                    T.walk(rets[id(p)], lambda t: atoms.add(t) if t[0] == 'call' else None)
             atoms = sorted(atoms, key=repr)
             bad = und = None
-            if any(a[0] != 'call' or a[1] != meth for a in atoms):
-                und = 'guard is not an element relation: %s' % [T.show(a) for a in atoms if a[0] != 'call' or a[1] != meth][:2]
+            if any(a_[0] != 'call' or a_[1] != meth for a_ in atoms):
+                und = 'guard is not an element relation: %s' % [T.show(a_) for a_ in atoms if a_[0] != 'call' or a_[1] != meth][:2]
             else:
                 for vals in itertools.product((False, True), repeat=len(atoms)):
                     assign = dict(zip(atoms, vals))
                     outs = set()
                     for p, rest in cand:
-                        if all(assign[a] == pol for a, pol in rest):
-                            outs.add(eval_bool(p.ret, assign) if p.is_ret() else 'panic')
+                        if all(assign[a_] == pol for a_, pol in rest):
+                            outs.add(eval_bool(rets.get(id(p), p.ret), assign) if p.is_ret() else 'panic')
                     if len(outs) != 1:
                         und = '%d outcomes' % len(outs)
                         break
-                    want = (ka == kb) and all(assign[a] for a in want_atoms)
+                    want = (ka == kb) and all(assign[a_] for a_ in want_atoms)
+                    if negate:
+                        want = not want
                     if outs.pop() != want:
                         bad = 'with element relations %s the result is %s, expected %s' % (
-                            {T.show(a): v for a, v in assign.items()}, not want, want)
+                            {T.show(a_): v for a_, v in assign.items()}, not want, want)
                         break
-                extra = [a for a in atoms if a not in want_atoms]
+                extra = [a_ for a_ in atoms if a_ not in want_atoms]
                 if extra and not bad and not und:
-                    bad = 'compares other operands/tolerances than the corresponding bounds: %s' % [T.show(a) for a in extra][:2]
+                    bad = 'compares other operands/tolerances than the corresponding bounds: %s' % [T.show(a_) for a_ in extra][:2]
             chk.ob(key, 'E5-bool', desc, None if und else bad is None, ('undecided: ' + und) if und else (bad or ''), where,
-                   sample={'fn': meth, 'kinds': kinds_str((ka, kb)), 'atoms': [T.show(a) for a in want_atoms]})
+                   sample={'fn': label, 'kinds': kinds_str((ka, kb)), 'atoms': [T.show(a_) for a_ in want_atoms]})
+
+    for trait, meth, tols in APPROX:
+        f = facts.trait_method(trait, m.path, meth)
+        if not has_approx:
+            chk.ob('%s:%s:absent%s' % (PID, meth, sfx), 'cfg', '%s impl is compiled out without the approx feature' % meth, f is None,
+                   '' if f is None else 'impl present although the feature is off')
+            continue
+        if not chk.anchor('%s for Interval%s' % (trait, sfx), f):
+            continue
+        n += 1
+        check_rel(f, meth, tols, meth)
+    tol_of = {meth: tols for _tr, meth, tols in APPROX}
+    no_overrides(chk, PID, facts, sfx, [m.path], 'approx impls of Interval (the *_ne forms follow from the *_eq forms)', traits=('AbsDiffEq', 'RelativeEq', 'UlpsEq', 'Display', 'Debug'),
+                 checkers={(tr.split('::')[-1], meth.replace('_eq', '_ne')): (lambda fnrec, meth=meth: check_rel(fnrec, meth, tol_of[meth], meth.replace('_eq', '_ne') + '(override)', negate=True)) for tr, meth, _t in APPROX})
     if has_approx and cfg == 'default':
         chk.floor('approx-impls', n, 3)
 
